@@ -25,8 +25,8 @@ from .common import parse_kv
 OWN_REPLAY = True
 LEVEL = "proof"
 
-PYTM = os.path.join(core.CACHE, "pytm")
-PYEXT_TARGET = os.path.join(core.CACHE, "pyext-target")
+PYTM = os.path.join(core.CACHE, "pytm" + core.SLOT)
+PYEXT_TARGET = os.path.join(core.CACHE, "pyext-target" + core.SLOT)
 PY_HARNESS = os.path.join(core.VERIF, "tools", "py_harness.py")
 PY_VERSION = "3.12.1"
 
